@@ -293,8 +293,9 @@ def write_events(hfn):
         elif e.get('k') in ('mcall', 'call'):
             d = e.get('def') if e.get('k') == 'mcall' else (e['f'].get('def') if e['f'].get('k') == 'path' else None)
             if d and (d.startswith('encode::') or '::encode' in d):
+                cargs = ([e['recv']] if e.get('k') == 'mcall' else []) + list(e['args'])
                 evs.append({'kind': 'call', 'def': d, 'name': d.split('::')[-1], 'ln': e['ln'],
-                            'conds': conds_of(anc)})
+                            'conds': conds_of(anc), 'callargs': cargs})
     walk(hfn['body'], visit)
     return evs
 
@@ -328,10 +329,61 @@ def flat_write_events(facts, fn, conds=(), seen=None, depth=0):
         if e['kind'] == 'call' and e.get('def') in facts.hir:
             sub = flat_write_events(facts, e['def'], e2['conds'], seen, depth + 1)
             if sub:
+                # the helper's parameters stand for the caller's argument expressions
+                mapping = param_mapping(facts.hir[e['def']], e.get('callargs', []))
+                for s_ in sub:
+                    if mapping:
+                        if 'args' in s_:
+                            s_['args'] = [subst(a, mapping) for a in s_['args']]
+                        if s_.get('e') is not None:
+                            s_['e'] = subst(s_['e'], mapping)
+                        s_['conds'] = list(e2['conds']) + [subst(c, mapping) for c in s_['conds'][len(e2['conds']):]]
+                    s_.setdefault('outer_fns', []).append(fn)
                 out.extend(sub)
                 continue
         out.append(e2)
     return out
+
+
+def param_mapping(hfn, callargs):
+    """parameter name -> argument expression, for simple `name: T` parameters"""
+    mapping = {}
+    params = hfn.get('params', [])
+    if len(params) != len(callargs):
+        return mapping
+    for p, a in zip(params, callargs):
+        if isinstance(p, dict) and p.get('k') == 'bind':
+            # a parameter that is re-bound inside the helper keeps its own meaning
+            mapping[p['name']] = a
+    rebound = binding_inits(hfn)
+    return {k: v for k, v in mapping.items() if k not in rebound}
+
+
+def subst(e, mapping):
+    """copy of expression e with the locals named in mapping replaced by their expressions"""
+    if isinstance(e, dict):
+        if e.get('k') == 'local' and e.get('name') in mapping:
+            return mapping[e['name']]
+        return {k: (v if k in CHILD_SKIP else subst(v, mapping)) for k, v in e.items()}
+    if isinstance(e, list):
+        return [subst(x, mapping) for x in e]
+    return e
+
+
+def event_inits(facts, ev, cache=None):
+    """let-initialisers visible to the expressions of a (possibly spliced) write event: those of the
+    function it textually belongs to, then those of the callers it was spliced into"""
+    res = {}
+    for f in [ev['fn']] + list(ev.get('outer_fns', [])):
+        if cache is not None and f in cache:
+            bi = cache[f]
+        else:
+            bi = binding_inits(facts.hir[f])
+            if cache is not None:
+                cache[f] = bi
+        for k, v in bi.items():
+            res.setdefault(k, v)
+    return res
 
 
 def event_text(e):
